@@ -442,155 +442,8 @@ func propC13(c *Ctx) {
 	})
 
 	c.Rule("C13.R4", func() {
-		fn := c.Method(childKeeper, "Keeper", "ApplyAndReturnValidatorSetUpdates")
-		o := c.Ob("C13.R4", "ApplyAndReturnValidatorSetUpdates: every update told to consensus is recorded (and vice versa)")
 		purgeObligation(c, "C13.R5", "ApplyAndReturnValidatorSetUpdates: a record with power <= 0 is purged now or is in the last-power set")
-		allV := "(opchild/keeper.Keeper).GetAllValidators(k, ctx).0"
-		nOK := 0
-		for _, p := range c.Paths(fn, applyPO) {
-			lastM := lastMapOn(p)
-			o.Paths++
-			o.Facts += p.NFacts()
-			if !p.OK() || p.Panic {
-				continue
-			}
-			nOK++
-			elems, ok := listOf(p.Ret[0])
-			if !ok {
-				o.Undecide("update list is not an append chain: " + trunc(p.Ret[0].Key(), 160))
-				continue
-			}
-			told := map[string]bool{}
-			for _, e := range elems {
-				e = strip(e)
-				if e.Op != "call" || !strings.HasSuffix(e.Name, "Validator).ABCIValidatorUpdate") {
-					o.Fail(c.W.Pos(fn.Pos()), "update element is "+trunc(e.Key(), 120), c.Dump(p, -1))
-					continue
-				}
-				o.Sites++
-				v := e.Args[0]
-				addr := opAddrKey(v)
-				told[addr] = true
-				switch {
-				case strings.HasPrefix(v.Key(), allV+"["):
-					rel, n := p.Relation(len(p.Events), keyIs(v.Key()+".ConsPower"), keyIs("0"))
-					if n == 0 || rel != rGT {
-						o.Fail(c.W.Pos(fn.Pos()), "a stored validator is reported with relation(power, 0) = "+relString(rel)+" (want >)", c.Dump(p, -1))
-					}
-					rec := p.Find(func(e2 *Event) bool {
-						return e2.Kind == EvCall && strings.HasSuffix(e2.Call.Name, "Keeper).SetLastValidatorPower") && e2.Call.Args[2].Key() == addr && e2.Call.Args[3].Key() == v.Key()+".ConsPower"
-					})
-					if len(rec) != 1 || !p.factIs(len(p.Events), "("+p.Events[rec[0]].Call.String()+" == nil)", true) {
-						o.Fail(c.W.Pos(fn.Pos()), "power update told to consensus without recording SetLastValidatorPower(addr, power) for the same validator", c.Dump(p, -1))
-					}
-				case strings.HasSuffix(v.Args0Name(), "Keeper).mustGetValidator"):
-					rel, n := p.Relation(len(p.Events), keyIs(v.Key()+".ConsPower"), keyIs("0"))
-					if n == 0 || rel&rGT != 0 {
-						o.Fail(c.W.Pos(fn.Pos()), "removal update emitted for a validator whose power may be positive", c.Dump(p, -1))
-					}
-					// the looked-up address comes from the sorted no-longer-bonded slice
-					src := strip(v.Args[2])
-					if !(src.Op == "convert" || src.Op == "index") || !fromSortedLast(c, src, lastM) {
-						o.Fail(c.W.Pos(fn.Pos()), "removed validator is looked up from "+trunc(src.Key(), 140)+", not from the sorted no-longer-bonded slice", c.Dump(p, -1))
-					}
-					rm := p.Find(func(e2 *Event) bool {
-						return e2.Kind == EvCall && strings.HasSuffix(e2.Call.Name, "Keeper).RemoveValidator") && e2.Call.Args[2].Key() == addr
-					})
-					dl := p.Find(func(e2 *Event) bool {
-						return e2.Kind == EvCall && strings.HasSuffix(e2.Call.Name, "Keeper).DeleteLastValidatorPower") && e2.Call.Args[2].Key() == addr
-					})
-					if len(rm) != 1 || len(dl) != 1 {
-						o.Fail(c.W.Pos(fn.Pos()), fmt.Sprintf("removal told to consensus with %d record removals and %d last-power deletions of that validator (want 1 and 1)", len(rm), len(dl)), c.Dump(p, -1))
-					}
-				default:
-					o.Fail(c.W.Pos(fn.Pos()), "update for a validator of unknown origin: "+trunc(v.Key(), 140), c.Dump(p, -1))
-				}
-			}
-			// vice versa
-			for _, i := range p.Find(func(e2 *Event) bool {
-				return e2.Kind == EvCall && (strings.HasSuffix(e2.Call.Name, "Keeper).SetLastValidatorPower") || strings.HasSuffix(e2.Call.Name, "Keeper).DeleteLastValidatorPower"))
-			}) {
-				if !told[p.Events[i].Call.Args[2].Key()] {
-					o.Fail(c.evPos(&p.Events[i]), "last-power record changed without telling consensus", c.Dump(p, -1))
-				}
-			}
-			// completeness: a stored validator with positive power is reported iff it is new or its power changed
-			for i := range p.Events {
-				ev := &p.Events[i]
-				if ev.Kind != EvFact || !ev.Pol || ev.Cond.Op != "bin" || ev.Cond.Name != "<" || ev.Cond.Args[0].Key() != "0" {
-					continue
-				}
-				pw := ev.Cond.Args[1]
-				if !strings.HasSuffix(pw.Key(), ".ConsPower") || !strings.HasPrefix(pw.Key(), allV+"[") {
-					continue
-				}
-				v := pw.Args[0]
-				lk := func(a *Term) bool {
-					return a.Op == "extract" && a.Args[0].Op == "lookup" && a.Args[0].Args[0].Key() == lastM && a.Args[0].Args[1].Key() == v.Key()+".OperatorAddress"
-				}
-				notFound := p.HasFact(len(p.Events), func(a *Term, pol bool) bool { return !pol && lk(a) && a.Name == "1" })
-				found := p.HasFact(len(p.Events), func(a *Term, pol bool) bool { return pol && lk(a) && a.Name == "1" })
-				changed := p.HasFact(len(p.Events), func(a *Term, pol bool) bool {
-					return !pol && a.Op == "bin" && a.Name == "==" && ((lk(a.Args[0]) && a.Args[0].Name == "0" && a.Args[1].Key() == pw.Key()) || (lk(a.Args[1]) && a.Args[1].Name == "0" && a.Args[0].Key() == pw.Key()))
-				})
-				same := p.HasFact(len(p.Events), func(a *Term, pol bool) bool {
-					return pol && a.Op == "bin" && a.Name == "==" && ((lk(a.Args[0]) && a.Args[0].Name == "0" && a.Args[1].Key() == pw.Key()) || (lk(a.Args[1]) && a.Args[1].Name == "0" && a.Args[0].Key() == pw.Key()))
-				})
-				isTold := told[opAddrKey(v)]
-				if (notFound || changed) && !isTold {
-					o.Fail(c.evPos(ev), "a new or re-powered validator is not reported to consensus", c.Dump(p, -1))
-				}
-				if found && same && isTold {
-					o.Fail(c.evPos(ev), "an unchanged bonded validator is reported again", c.Dump(p, -1))
-				}
-				if !notFound && !found {
-					o.Fail(c.evPos(ev), "the last-power lookup of a bonded validator is not consulted", c.Dump(p, -1))
-				}
-			}
-			// bonded validators leave the 'last' map (otherwise they are reported as removed)
-			for i := range p.Events {
-				ev := &p.Events[i]
-				if ev.Kind != EvFact || !ev.Pol || ev.Cond.Op != "bin" || ev.Cond.Name != "<" || ev.Cond.Args[0].Key() != "0" {
-					continue
-				}
-				pw := ev.Cond.Args[1]
-				if !strings.HasSuffix(pw.Key(), ".ConsPower") || !strings.HasPrefix(pw.Key(), allV+"[") {
-					continue
-				}
-				v := pw.Args[0]
-				del := p.Find(func(e2 *Event) bool {
-					return e2.Kind == EvMapDelete && e2.Place.Key() == lastM && e2.Cond.Key() == v.Key()+".OperatorAddress"
-				})
-				if len(del) == 0 {
-					o.Fail(c.evPos(ev), "a bonded validator is not deleted from the last-power map before the removal pass (it would be reported as removed)", c.Dump(p, -1))
-				}
-			}
-		}
-		// the removal pass may refuse only validators whose power is positive
-		for _, p := range c.Paths(fn, applyPO) {
-			if p.Panic || p.OK() || len(p.Ret) != 2 {
-				continue
-			}
-			if r := p.Ret[1]; r.Op == "call" && r.Name == "errors.New" {
-				o.Sites++
-				okPos := false
-				for i := range p.Events {
-					ev := &p.Events[i]
-					if ev.Kind != EvFact {
-						continue
-					}
-					if rf, ok := factRel(ev.Cond, ev.Pol); ok && strings.HasSuffix(rf.Y.Key(), ".ConsPower") && strings.Contains(rf.Y.Key(), "mustGetValidator") && rf.X.Key() == "0" && rf.Rel == rLT {
-						okPos = true
-					}
-				}
-				if !okPos {
-					o.Fail(c.W.Pos(fn.Pos()), "the removal pass fails block processing for a validator whose power is not positive", c.Dump(p, -1))
-				}
-			}
-		}
-		if nOK == 0 {
-			o.Fail(c.W.Pos(fn.Pos()), "no success path", nil)
-		}
+		diffComplete(c, "C13.R4")
 	})
 
 	c.Rule("C13.R6", func() {
@@ -1064,6 +917,7 @@ func propC14(c *Ctx) {
 		}
 	})
 
+	c.Rule("C14.R7", func() { diffComplete(c, "C14.R7") })
 	c.Rule("C14.R6", func() {
 		// the records ChangeExecutor zeroes must be gone from state by the end of block h:
 		// that is the purge obligation of the diff that runs right after it in EndBlocker
@@ -1155,3 +1009,159 @@ func executorHandover(c *Ctx, rule string) {
 		o.Fail(c.W.Pos(fn.Pos()), "no success path", nil)
 	}
 }
+
+// diffComplete: the validator diff tells consensus exactly what it records: every stored
+// validator with positive power that is new or changed is reported and recorded, every
+// reported update is recorded, removals come from the sorted no-longer-bonded list.  Shared by
+// C13 and C14 (the plan validator inserted at the plan height is reported by the diff of the
+// same EndBlocker - nothing may skip a stored positive-power validator).
+func diffComplete(c *Ctx, rule string) {
+		fn := c.Method(childKeeper, "Keeper", "ApplyAndReturnValidatorSetUpdates")
+		o := c.Ob(rule, "ApplyAndReturnValidatorSetUpdates: every update told to consensus is recorded (and vice versa)")
+		allV := "(opchild/keeper.Keeper).GetAllValidators(k, ctx).0"
+		nOK := 0
+		for _, p := range c.Paths(fn, applyPO) {
+			lastM := lastMapOn(p)
+			o.Paths++
+			o.Facts += p.NFacts()
+			if !p.OK() || p.Panic {
+				continue
+			}
+			nOK++
+			elems, ok := listOf(p.Ret[0])
+			if !ok {
+				o.Undecide("update list is not an append chain: " + trunc(p.Ret[0].Key(), 160))
+				continue
+			}
+			told := map[string]bool{}
+			for _, e := range elems {
+				e = strip(e)
+				if e.Op != "call" || !strings.HasSuffix(e.Name, "Validator).ABCIValidatorUpdate") {
+					o.Fail(c.W.Pos(fn.Pos()), "update element is "+trunc(e.Key(), 120), c.Dump(p, -1))
+					continue
+				}
+				o.Sites++
+				v := e.Args[0]
+				addr := opAddrKey(v)
+				told[addr] = true
+				switch {
+				case strings.HasPrefix(v.Key(), allV+"["):
+					rel, n := p.Relation(len(p.Events), keyIs(v.Key()+".ConsPower"), keyIs("0"))
+					if n == 0 || rel != rGT {
+						o.Fail(c.W.Pos(fn.Pos()), "a stored validator is reported with relation(power, 0) = "+relString(rel)+" (want >)", c.Dump(p, -1))
+					}
+					rec := p.Find(func(e2 *Event) bool {
+						return e2.Kind == EvCall && strings.HasSuffix(e2.Call.Name, "Keeper).SetLastValidatorPower") && e2.Call.Args[2].Key() == addr && e2.Call.Args[3].Key() == v.Key()+".ConsPower"
+					})
+					if len(rec) != 1 || !p.factIs(len(p.Events), "("+p.Events[rec[0]].Call.String()+" == nil)", true) {
+						o.Fail(c.W.Pos(fn.Pos()), "power update told to consensus without recording SetLastValidatorPower(addr, power) for the same validator", c.Dump(p, -1))
+					}
+				case strings.HasSuffix(v.Args0Name(), "Keeper).mustGetValidator"):
+					rel, n := p.Relation(len(p.Events), keyIs(v.Key()+".ConsPower"), keyIs("0"))
+					if n == 0 || rel&rGT != 0 {
+						o.Fail(c.W.Pos(fn.Pos()), "removal update emitted for a validator whose power may be positive", c.Dump(p, -1))
+					}
+					// the looked-up address comes from the sorted no-longer-bonded slice
+					src := strip(v.Args[2])
+					if !(src.Op == "convert" || src.Op == "index") || !fromSortedLast(c, src, lastM) {
+						o.Fail(c.W.Pos(fn.Pos()), "removed validator is looked up from "+trunc(src.Key(), 140)+", not from the sorted no-longer-bonded slice", c.Dump(p, -1))
+					}
+					rm := p.Find(func(e2 *Event) bool {
+						return e2.Kind == EvCall && strings.HasSuffix(e2.Call.Name, "Keeper).RemoveValidator") && e2.Call.Args[2].Key() == addr
+					})
+					dl := p.Find(func(e2 *Event) bool {
+						return e2.Kind == EvCall && strings.HasSuffix(e2.Call.Name, "Keeper).DeleteLastValidatorPower") && e2.Call.Args[2].Key() == addr
+					})
+					if len(rm) != 1 || len(dl) != 1 {
+						o.Fail(c.W.Pos(fn.Pos()), fmt.Sprintf("removal told to consensus with %d record removals and %d last-power deletions of that validator (want 1 and 1)", len(rm), len(dl)), c.Dump(p, -1))
+					}
+				default:
+					o.Fail(c.W.Pos(fn.Pos()), "update for a validator of unknown origin: "+trunc(v.Key(), 140), c.Dump(p, -1))
+				}
+			}
+			// vice versa
+			for _, i := range p.Find(func(e2 *Event) bool {
+				return e2.Kind == EvCall && (strings.HasSuffix(e2.Call.Name, "Keeper).SetLastValidatorPower") || strings.HasSuffix(e2.Call.Name, "Keeper).DeleteLastValidatorPower"))
+			}) {
+				if !told[p.Events[i].Call.Args[2].Key()] {
+					o.Fail(c.evPos(&p.Events[i]), "last-power record changed without telling consensus", c.Dump(p, -1))
+				}
+			}
+			// completeness: a stored validator with positive power is reported iff it is new or its power changed
+			for i := range p.Events {
+				ev := &p.Events[i]
+				if ev.Kind != EvFact || !ev.Pol || ev.Cond.Op != "bin" || ev.Cond.Name != "<" || ev.Cond.Args[0].Key() != "0" {
+					continue
+				}
+				pw := ev.Cond.Args[1]
+				if !strings.HasSuffix(pw.Key(), ".ConsPower") || !strings.HasPrefix(pw.Key(), allV+"[") {
+					continue
+				}
+				v := pw.Args[0]
+				lk := func(a *Term) bool {
+					return a.Op == "extract" && a.Args[0].Op == "lookup" && a.Args[0].Args[0].Key() == lastM && a.Args[0].Args[1].Key() == v.Key()+".OperatorAddress"
+				}
+				notFound := p.HasFact(len(p.Events), func(a *Term, pol bool) bool { return !pol && lk(a) && a.Name == "1" })
+				found := p.HasFact(len(p.Events), func(a *Term, pol bool) bool { return pol && lk(a) && a.Name == "1" })
+				changed := p.HasFact(len(p.Events), func(a *Term, pol bool) bool {
+					return !pol && a.Op == "bin" && a.Name == "==" && ((lk(a.Args[0]) && a.Args[0].Name == "0" && a.Args[1].Key() == pw.Key()) || (lk(a.Args[1]) && a.Args[1].Name == "0" && a.Args[0].Key() == pw.Key()))
+				})
+				same := p.HasFact(len(p.Events), func(a *Term, pol bool) bool {
+					return pol && a.Op == "bin" && a.Name == "==" && ((lk(a.Args[0]) && a.Args[0].Name == "0" && a.Args[1].Key() == pw.Key()) || (lk(a.Args[1]) && a.Args[1].Name == "0" && a.Args[0].Key() == pw.Key()))
+				})
+				isTold := told[opAddrKey(v)]
+				if (notFound || changed) && !isTold {
+					o.Fail(c.evPos(ev), "a new or re-powered validator is not reported to consensus", c.Dump(p, -1))
+				}
+				if found && same && isTold {
+					o.Fail(c.evPos(ev), "an unchanged bonded validator is reported again", c.Dump(p, -1))
+				}
+				if !notFound && !found {
+					o.Fail(c.evPos(ev), "the last-power lookup of a bonded validator is not consulted", c.Dump(p, -1))
+				}
+			}
+			// bonded validators leave the 'last' map (otherwise they are reported as removed)
+			for i := range p.Events {
+				ev := &p.Events[i]
+				if ev.Kind != EvFact || !ev.Pol || ev.Cond.Op != "bin" || ev.Cond.Name != "<" || ev.Cond.Args[0].Key() != "0" {
+					continue
+				}
+				pw := ev.Cond.Args[1]
+				if !strings.HasSuffix(pw.Key(), ".ConsPower") || !strings.HasPrefix(pw.Key(), allV+"[") {
+					continue
+				}
+				v := pw.Args[0]
+				del := p.Find(func(e2 *Event) bool {
+					return e2.Kind == EvMapDelete && e2.Place.Key() == lastM && e2.Cond.Key() == v.Key()+".OperatorAddress"
+				})
+				if len(del) == 0 {
+					o.Fail(c.evPos(ev), "a bonded validator is not deleted from the last-power map before the removal pass (it would be reported as removed)", c.Dump(p, -1))
+				}
+			}
+		}
+		// the removal pass may refuse only validators whose power is positive
+		for _, p := range c.Paths(fn, applyPO) {
+			if p.Panic || p.OK() || len(p.Ret) != 2 {
+				continue
+			}
+			if r := p.Ret[1]; r.Op == "call" && r.Name == "errors.New" {
+				o.Sites++
+				okPos := false
+				for i := range p.Events {
+					ev := &p.Events[i]
+					if ev.Kind != EvFact {
+						continue
+					}
+					if rf, ok := factRel(ev.Cond, ev.Pol); ok && strings.HasSuffix(rf.Y.Key(), ".ConsPower") && strings.Contains(rf.Y.Key(), "mustGetValidator") && rf.X.Key() == "0" && rf.Rel == rLT {
+						okPos = true
+					}
+				}
+				if !okPos {
+					o.Fail(c.W.Pos(fn.Pos()), "the removal pass fails block processing for a validator whose power is not positive", c.Dump(p, -1))
+				}
+			}
+		}
+		if nOK == 0 {
+			o.Fail(c.W.Pos(fn.Pos()), "no success path", nil)
+		}
+	}
